@@ -60,6 +60,7 @@ type Gen struct {
 	prog     *Program
 	u        *Universe
 	fn       *ssa.Function
+	topFn    *ssa.Function // the function under contract (fn changes while a callee is inlined)
 	key      string
 	con      *Contract
 	decls    []string
